@@ -22,6 +22,7 @@ meta={'seed_id':sid,'breaks_property':prop,'module':mod,
  'needs_to_manifest':(m.group(1).strip()[:600] if m else 'see NOTES.md'),
  'confirmed_by':'scripts/confirm_seed.sh in a scratch worktree of /repo HEAD (removed afterwards): '+confirm,
  'detected_by':caught,
- 'source':'independent sub-agent given only the property text and its own scratch worktree'}
+ 'source':'independent sub-agent given only the property text and its own scratch worktree',
+ 'first_run':os.environ.get('SEED_NOTE','')}
 json.dump(meta,open(dst+'/meta.json','w'),indent=1)
 print(sid,caught)
